@@ -10,10 +10,12 @@ import (
 	"context"
 	"encoding/json"
 	"fmt"
+	"net"
 	"sort"
 	"testing"
 	"time"
 
+	"github.com/vishvananda/netlink"
 	"pgregory.net/rapid"
 
 	"github.com/AliyunContainerService/terway/pkg/storage"
@@ -37,6 +39,7 @@ type c09Pod struct {
 	Class  string `json:"class"`
 	OnHost bool   `json:"on_host"` // record's interface is present on the host (else: no longer attached)
 	Legacy bool   `json:"legacy,omitempty"`
+	NoRes  bool   `json:"no_res,omitempty"` // record without resource items (pods served by a PodENI / the CRD path)
 }
 
 type c09Scenario struct {
@@ -45,6 +48,10 @@ type c09Scenario struct {
 	Passes int      `json:"passes"`
 	Park   int      `json:"park"` // GC pass during which a request for a running pod is parked first (-1: none)
 	Order  []int    `json:"order"`
+	// Stale: before the first pass, GC is started and held at its store listing while the
+	// DEL of a vanished pod and ADDs of fresh pods are issued; a pod that received the
+	// vanished pod's address gets its policy rules installed; GC must not tear them down.
+	Stale bool `json:"stale,omitempty"`
 }
 
 func c09Gen(t *rapid.T) c09Scenario {
@@ -55,11 +62,13 @@ func c09Gen(t *rapid.T) c09Scenario {
 		p := c09Pod{Class: rapid.SampledFrom(classes).Draw(t, "class")}
 		p.OnHost = rapid.IntRange(0, 2).Draw(t, "onhost") != 0
 		p.Legacy = !s.V6 && rapid.IntRange(0, 5).Draw(t, "legacy") == 0
+		p.NoRes = !p.Legacy && rapid.IntRange(0, 6).Draw(t, "nores") == 0
 		s.Pods = append(s.Pods, p)
 	}
 	s.Passes = rapid.IntRange(1, 3).Draw(t, "passes")
 	s.Park = rapid.IntRange(-1, s.Passes-1).Draw(t, "park")
 	s.Order = rapid.Permutation(vtRange(n)).Draw(t, "order")
+	s.Stale = rapid.IntRange(0, 3).Draw(t, "stale") == 0
 	return s
 }
 
@@ -146,6 +155,10 @@ func c09RunOpt(c *vt.Ctx, s c09Scenario, noGuard bool) {
 		cid := fmt.Sprintf("cid-%d", i)
 		netns := "/proc/1/ns/net"
 		rec := daemon.PodResources{PodInfo: info, Resources: []daemon.ResourceItem{item}, ContainerID: &cid, NetNs: &netns, NetConf: string(ncb)}
+		if p.NoRes {
+			info.PodENI = true
+			rec.Resources = nil
+		}
 		if err := db.Put(vsKey("ns", c09Name(i)), rec); err != nil {
 			c.Fatalf("put: %v", err)
 		}
@@ -210,7 +223,7 @@ func c09RunOpt(c *vt.Ctx, s c09Scenario, noGuard bool) {
 		if initial[i] == "" {
 			c.Fatalf("record of %s lost at start", c09Name(i))
 		}
-		if !owned(i) && !s.Pods[i].Legacy {
+		if !owned(i) && !s.Pods[i].Legacy && !s.Pods[i].NoRes {
 			c.Fatalf("binding of %s not re-applied to the pool at start", c09Name(i))
 		}
 	}
@@ -254,10 +267,21 @@ func c09RunOpt(c *vt.Ctx, s c09Scenario, noGuard bool) {
 		c.Label("known:C09-missing-interface-aborts-gc")
 	}
 
+	staleRan := false
+	if s.Stale {
+		staleRan = c09StaleStep(c, s, w, k, addr)
+	}
+
 	var afterPass2 string
-	for pass := 0; pass < s.Passes; pass++ {
+	passes := s.Passes
+	if staleRan && passes < 3 {
+		passes++ // the stale-snapshot step ran one full GC pass (it is pass 0)
+	}
+	for pass := 0; pass < passes; pass++ {
 		c.Trace("--- gc pass %d", pass)
-		if pass == s.Park {
+		if staleRan && pass == 0 {
+			// already executed by the stale-snapshot step; only the expectations follow
+		} else if pass == s.Park {
 			// park a request (GET for a running pod if there is one, else for pod 0) inside the
 			// service, start gcPods, and check that nothing moves until the request finishes
 			target := 0
@@ -317,7 +341,7 @@ func c09RunOpt(c *vt.Ctx, s c09Scenario, noGuard bool) {
 				if now != initial[i] {
 					c.Fatalf("GC pass %d touched the record of %s (class %s):\nbefore %s\nafter  %s", pass, name, p.Class, initial[i], now)
 				}
-				if !owned(i) && !p.Legacy {
+				if !owned(i) && !p.Legacy && !p.NoRes {
 					c.Fatalf("GC pass %d released the address of %s (class %s)", pass, name, p.Class)
 				}
 			case c09Absent:
@@ -342,7 +366,7 @@ func c09RunOpt(c *vt.Ctx, s c09Scenario, noGuard bool) {
 					if now == "" {
 						c.Fatalf("GC pass 0 collected sticky-IP pod %s without its extra period", name)
 					}
-					if !owned(i) && !p.Legacy {
+					if !owned(i) && !p.Legacy && !p.NoRes {
 						c.Fatalf("GC pass 0 released the address of sticky-IP pod %s", name)
 					}
 				} else {
@@ -369,6 +393,131 @@ func c09RunOpt(c *vt.Ctx, s c09Scenario, noGuard bool) {
 		}
 	}
 	_ = sort.Strings
+}
+
+// c09StaleStep: GC must act on what is true when it holds the service lock, not on a
+// snapshot taken earlier. GC is started and held at its store listing. Then the DEL of a
+// vanished pod x (record on an interface that is present on the host) and ADDs of fresh
+// pods are issued. On a correct daemon they simply wait for GC (it holds the service
+// lock). If they do complete while GC is held, a fresh pod that received x's address gets
+// its policy rules installed as the plugin would; GC must not tear them down.
+func c09StaleStep(c *vt.Ctx, s c09Scenario, w *vsWorld, k *vsK8s, addr map[int][2]string) bool {
+	x := -1
+	for i, p := range s.Pods {
+		if p.Class == c09Absent && p.OnHost && !p.Legacy && !p.NoRes {
+			x = i
+			break
+		}
+	}
+	if x < 0 {
+		return false
+	}
+	c.Label("stale-snapshot-step")
+	g := &c04Gate{}
+	g.arm(1)
+	w.store.listHook = func() { g.point("store:list") }
+	defer func() { w.store.listHook = nil }()
+	gcDone := make(chan struct{})
+	go func() { _ = w.svc.gcPods(context.Background()); close(gcDone) }()
+	select {
+	case <-g.parked:
+	case <-gcDone:
+		return true
+	case <-time.After(2 * time.Second):
+		c.Inconclusive("gc did not reach its store listing")
+	}
+	xv4 := addr[x][0]
+	type out struct {
+		del  bool
+		gotX string
+	}
+	res := make(chan out, 1)
+	delDone := make(chan struct{})
+	go func() {
+		o := out{}
+		ctx, cancel := context.WithTimeout(context.Background(), 5*time.Second)
+		defer cancel()
+		_, err := w.svc.ReleaseIP(ctx, vsDelReq(c09Name(x), fmt.Sprintf("cid-%d", x)))
+		close(delDone)
+		if err == nil {
+			o.del = true
+			for f := 0; f < 2*len(s.Pods)+6 && o.gotX == ""; f++ {
+				name := fmt.Sprintf("q%d", f)
+				k.setPod(name, "uid-"+name, false)
+				rep, err := w.svc.AllocIP(ctx, vsAddReq(name, "cid-"+name))
+				if err != nil {
+					break
+				}
+				if v4, _ := vsReplyAddrs(rep.NetConfs); v4 == xv4 {
+					o.gotX = name
+				}
+			}
+		}
+		res <- o
+	}()
+	var o out
+	early := false
+	select {
+	case <-delDone:
+		// the DEL ran although GC is in progress: give the ADDs time to finish as well
+		select {
+		case o = <-res:
+			early = true
+		case <-time.After(4 * time.Second):
+		}
+	case <-time.After(100 * time.Millisecond):
+	}
+	var rules []*netlink.Rule
+	if early && o.gotX != "" {
+		// the requests ran while GC was held: install the policy rules of the pod that now
+		// owns the address, as the plugin does on ADD
+		_, ipn, _ := net.ParseCIDR(xv4 + "/32")
+		r1 := netlink.NewRule()
+		r1.Priority = 512
+		r1.Dst = ipn
+		r1.Table = 254
+		r2 := netlink.NewRule()
+		r2.Priority = 2048
+		r2.Src = ipn
+		r2.Table = 1001
+		for _, r := range []*netlink.Rule{r1, r2} {
+			if err := netlink.RuleAdd(r); err != nil {
+				close(g.release)
+				c.Inconclusive("cannot install ip rule: " + err.Error())
+			}
+			rules = append(rules, r)
+		}
+		c.Label("stale-snapshot:address-reused-while-gc-held")
+	}
+	close(g.release)
+	select {
+	case <-gcDone:
+	case <-time.After(5 * time.Second):
+		c.Inconclusive("gc did not finish")
+	}
+	if !early {
+		select {
+		case <-res:
+		case <-time.After(5 * time.Second):
+			c.Inconclusive("requests did not finish after gc")
+		}
+	}
+	if len(rules) > 0 {
+		have, _ := netlink.RuleList(netlink.FAMILY_V4)
+		for _, want := range rules {
+			found := false
+			for _, h := range have {
+				if h.Priority == want.Priority && ((want.Dst != nil && h.Dst != nil && h.Dst.String() == want.Dst.String()) || (want.Src != nil && h.Src != nil && h.Src.String() == want.Src.String())) {
+					found = true
+				}
+			}
+			_ = netlink.RuleDel(want)
+			if !found {
+				c.Fatalf("GC tore down the policy rule (priority %d) of running pod %s, which had been given address %s after the vanished pod %s was torn down (GC acted on a stale snapshot)", want.Priority, o.gotX, xv4, c09Name(x))
+			}
+		}
+	}
+	return true
 }
 
 func TestVerifC09GC(t *testing.T) { vt.Run(t, c09Gen, c09Run) }
